@@ -9,6 +9,7 @@ CONSTANTS
   Labels = {0, 1, 2}
   MaxUnits = 3
   MaxDepth = 5
+  WithMany = TRUE
 CONSTRAINT Bound
 INVARIANT HeapWellFormed
 INVARIANT CatsCover
